@@ -728,7 +728,8 @@ int file::Handle::readln(char * buf, int n)
   int c = 0, r = 0;
   while (r < n &&  c != '\n')
   {
-    if ((c = ::fgetc(_file)) <= 0)
+    /* only the end of file (or an error) ends the line: a NUL byte is data */
+    if ((c = ::fgetc(_file)) < 0)
       break;
     *buf = (char)c;
     ++buf;
